@@ -41,11 +41,27 @@ Ops(k, w) ==
          Fn(<<114,101,112,108,97,99,101>>, <<S, Comma, wc, Comma, Raw(<<39,45,45,39>>)>>), Fn(<<101,110,100,115,95,119,105,116,104>>, <<S, Comma, wc>>), Fn(<<116,114,105,109,95,114,105,103,104,116>>, <<S, Comma, wc>>),
          Fn(<<115,116,97,114,116,115,95,119,105,116,104>>, <<S, Comma, Raw(EncRaw(SubSeq(Letters, 1, k) \o <<Wide[w]>>))>>) }
 
+\* characters whose case mapping changes the ENCODED WIDTH (Kelvin sign -> k, dotless i -> I, long s -> S,
+\* U+023A <-> U+2C65 ...): what lower / upper return for them is not pinned, but it is a string of code
+\* points -- every operation applied to it counts code points, and (checked on every result by the
+\* harness) it is valid UTF-8
+CaseChars == <<8490, 304, 305, 383, 570, 574, 592, 11365, 11366, 7838, 453, 223, 8491, 1012, 7835>>
+CaseSubjects == { <<CaseChars[i]>> : i \in 1..Len(CaseChars) } \cup { <<97, CaseChars[i], 98>> : i \in 1..Len(CaseChars) }
+                \cup { <<CaseChars[i], CaseChars[j]>> : i \in 1..Len(CaseChars), j \in 1..Len(CaseChars) }
+CaseOps == { Fn(<<108,111,119,101,114>>, <<S>>), Fn(<<117,112,112,101,114>>, <<S>>), Fn(<<108,101,110,103,116,104>>, Fn(<<108,111,119,101,114>>, <<S>>)), Fn(<<108,101,110,103,116,104>>, Fn(<<117,112,112,101,114>>, <<S>>)),
+             Fn(<<114,101,118,101,114,115,101>>, Fn(<<117,112,112,101,114>>, <<S>>)), Fn(<<108,111,119,101,114>>, <<S>>) \o <<LB, N(1), Colon, RB>>, Fn(<<117,112,112,101,114>>, <<S>>) \o <<LB, Colon, Colon, N(0 - 1), RB>>,
+             Fn(<<108,111,119,101,114>>, Fn(<<117,112,112,101,114>>, <<S>>)), Fn(<<117,112,112,101,114>>, Fn(<<114,101,118,101,114,115,101>>, <<S>>)), Fn(<<108,101,110,103,116,104>>, <<S>>), Fn(<<114,101,118,101,114,115,101>>, <<S>>),
+             Fn(<<112,97,100,95,108,101,102,116>>, Fn(<<117,112,112,101,114>>, <<S>>) \o <<Comma, J(5)>>), Fn(<<115,112,108,105,116>>, Fn(<<108,111,119,101,114>>, <<S>>) \o <<Comma, Raw(<<39,39>>)>>) }
+CaseCase == [p |-> Prop, kind |-> "search",
+             multi |-> UNION { LET doc == Obj(<<Mem(<<115>>, Str(cs))>>) IN { [expr |-> Render(e), doc |-> doc, adm |-> Admissible(e, doc)] : e \in CaseOps }
+                               : cs \in CaseSubjects }]
+
 Check == idx > 0 =>
   LET k == bucket  w == idx
       cases == UNION { LET doc == Obj(<<Mem(<<115>>, Str(Subject(k, w, m)))>>) IN
                        { [expr |-> Render(e), doc |-> doc, adm |-> Admissible(e, doc)] : e \in Ops(k, w) } : m \in {0, 3, 9} }
       case == [p |-> Prop, kind |-> "search", multi |-> cases]
   IN /\ Emit => PrintT("CASE " \o ToJson(case))
+     /\ (Emit /\ bucket = 0 /\ idx = 1) => PrintT("CASE " \o ToJson(CaseCase))
      /\ Named(\A c \in cases : \A o \in c.adm : IsVal(o), "NoErrors")
 =============================================================================
